@@ -130,7 +130,18 @@ class StmtMixin:
 
     # ------------------------------------------------------------ assignment
     def s_Assign(self, s):
-        v = self.eval(s.value)
+        try:
+            v = self.eval(s.value)
+        except Unsupported as ex:
+            # a value the engine cannot model, bound to a plain local: the local becomes
+            # unbound (any later READ of it is an error; values used only in dropped
+            # messages / exception arguments do no harm)
+            if len(s.targets) == 1 and isinstance(s.targets[0], ast.Name) and not self.p.speculating:
+                self.frame.locals[s.targets[0].id] = None
+                self.notes['havoc'].add(f'{self.frame.qualname}: unmodelled value of local '
+                                        f'{s.targets[0].id} (line {s.lineno}): {ex}')
+                return
+            raise
         for t in s.targets:
             self.assign(t, v)
 
@@ -276,9 +287,34 @@ class StmtMixin:
                 p.pos += 1
                 return
         if p.choose(c):
+            self.narrow(s.test, True)
             self.exec_block(s.body)
         else:
+            self.narrow(s.test, False)
             self.exec_block(s.orelse)
+
+    def narrow(self, test, outcome):
+        """After branching on `x`, `not x`, `x is None`, `x is not None` for an optional local x:
+        rebind x to None / to its payload on the branch where that is known."""
+        neg = False
+        while isinstance(test, ast.UnaryOp) and isinstance(test.op, ast.Not):
+            test, neg = test.operand, not neg
+        name = None
+        none_when = None      # outcome under which the value is None
+        if isinstance(test, ast.Name):
+            name, known_some = test.id, (outcome != neg)     # truthy => not None
+            v = self.frame.locals.get(name)
+            if v is not None and v.kind.name == 'opt' and known_some:
+                self.frame.locals[name] = self.force(v)
+            return
+        if isinstance(test, ast.Compare) and len(test.ops) == 1 and isinstance(test.left, ast.Name) \
+                and isinstance(test.comparators[0], ast.Constant) and test.comparators[0].value is None \
+                and isinstance(test.ops[0], (ast.Is, ast.IsNot)):
+            name = test.left.id
+            is_none = isinstance(test.ops[0], ast.Is) == (outcome != neg)
+            v = self.frame.locals.get(name)
+            if v is not None and v.kind.name == 'opt':
+                self.frame.locals[name] = NONEV if is_none else self.force(v)
 
     def try_merge_if(self, s, c):
         """Run both branches of `if c:` under guards c / not c without forking and
